@@ -117,7 +117,7 @@ def metric_entries():
         return cx_t(it, "target", ("N",) if wf else ("N", "N"))
 
     E.append(("fidelity", lambda it, s, wf: it.call_function(f(it.program, "fidelity"), [s, tgt(it, wf)], {"space": tens(it, "space", ("N", "nv"))}, None)))
-    E.append(("KL/no-bases", lambda it, s, wf: it.call_function(f(it.program, "KL"), [s, tens(it, "target", (2, "N"))], {"space": tens(it, "space", ("N", "nv"))}, None)))
+    E.append(("KL/no-bases", lambda it, s, wf: it.call_function(f(it.program, "KL"), [s, tgt(it, wf)], {"space": tens(it, "space", ("N", "nv"))}, None)))
     E.append(("KL/bases", lambda it, s, wf: it.call_function(f(it.program, "KL"), [s, tgt(it, wf)], {"space": tens(it, "space", ("N", "nv")), "bases": it.new_list([basis_str(it), basis_str(it)])}, None)))
     E.append(("NLL/no-bases", lambda it, s, wf: it.call_function(f(it.program, "NLL"), [s, tens(it, "samples", ("B", "nv"))], {"space": tens(it, "space", ("N", "nv"))}, None)))
     E.append(("NLL/bases", lambda it, s, wf: it.call_function(f(it.program, "NLL"), [s, tens(it, "samples", ("B", "nv"))], {"space": tens(it, "space", ("N", "nv")), "sample_bases": bases_arr(it, "sample_bases")}, None)))
